@@ -8,7 +8,11 @@ from props import c01, c08
 
 VALS = ["", "-1", "0", "1", "4294967296", "18446744073709551616", "0xffffffff", "0x", "9" * 300, "Unknown", "PU", "NUMANode",
         "Machine", "128", "0x00000001,0x00000000", "0xf...f", "3.14", "a b c", "65536", "-2147483648", "L2Cache", "OSDev",
-        "1-7", "0-1", "2", "0x00000001", "Group", "%s%n", "&amp;", "é"]
+        "1-7", "0-1", "2", "0x00000001", "Group", "%s%n", "&amp;", "é",
+        "Capacity", "Locality", "Bandwidth", "Latency", "18446744073709551501", "1000000000000000", "hwvattr"]
+# text contents (of <indexes>, <u64values>, <userdata> ...)
+CONTENTS = ["", "0", "1 2 3", "18446744073709551615 " * 12, "NUMANode:18446744073709551501 " * 10, "PU:0 PU:1 PU:2 PU:3 ", "x", "-1 -1 -1 -1 ",
+            "10 " * 400, "Unknown:0 Machine:1 ", "Zm9v", "====", "1,2,3", " "]
 VERS = ["1.0", "2.0", "2.5", "3.0", "4.0", "", "abc", "2", "0.9", "3.0.1"]
 
 DOCTYPES = ["", "<!DOCTYPE topology>", '<!DOCTYPE topology SYSTEM "">', '<!DOCTYPE topology SYSTEM "hwloc.dtd">', '<!DOCTYPE topology SYSTEM "hwloc2.dtd">',
@@ -163,6 +167,17 @@ def apply_recipe(text, recipe):
             el = d.elems[e - 1]
             selfclose = text[el["open_end"] - 2:el["open_end"]] == "/>"
             text = text[:el["start"]] + "<object " + TEMPLATES[(k - 1) % len(TEMPLATES)] + ("/>" if selfclose else ">") + text[el["open_end"]:]
+        elif op == "setcontent":
+            e, v = m[1], m[2]
+            if e > n:
+                continue
+            el = d.elems[e - 1]
+            if text[el["open_end"] - 2:el["open_end"]] == "/>" or el["end"] <= el["open_end"]:
+                continue            # no content
+            close = text.rfind("</", el["open_end"], el["end"])
+            if close < 0 or "<" in text[el["open_end"]:close]:
+                continue            # has child elements: not a text content
+            text = text[:el["open_end"]] + CONTENTS[(v - 1) % len(CONTENTS)] + text[close:]
         elif op == "truncate":
             text = text[:len(text) * m[1] // 16]
         elif op == "setversion":
@@ -205,18 +220,29 @@ def base_documents(ctx, exe_topo):
     m = re.search(r'(<object type="Machine"[^>]*>\n)', docs["v3"])
     if m:
         docs["big"] = docs["v3"][:m.end()] + '    <info name="Padding" value="%s"/>\n' % ("0123456789abcdef" * 1400) + docs["v3"][m.end():]
+    # the same document with every gp_index (and every reference to one) moved close to 2^64: valid, and what is printed gets 20 digits long
+    K = 18446744073709550000
+    def up(mm):
+        return '%s="%d"' % (mm.group(1), int(mm.group(2)) + K)
+    t = re.sub(r'\b(gp_index|target_obj_gp_index|initiator_obj_gp_index)="(\d+)"', up, docs["v3"])
+    t = re.sub(r'(<distances2hetero[^>]*>\s*<indexes[^>]*>)([^<]*)(</indexes>)',
+               lambda mm: mm.group(1) + re.sub(r':(\d+)', lambda x: ":%d" % (int(x.group(1)) + K), mm.group(2)) + mm.group(3), t)
+    t = re.sub(r'(<indexes length=")(\d+)(">)([^<]*)(</indexes>)', lambda mm: mm.group(1) + str(len(mm.group(4))) + mm.group(3) + mm.group(4) + mm.group(5), t)
+    docs["hugegp"] = t
     return docs
 
 
 def mc_module(doc):
     n, attrs = doc.shape()
     objs = [str(i + 1) for i, e in enumerate(doc.elems) if e["name"] == "object"]
-    return ("---- MODULE MC_XmlMut_gen ----\nEXTENDS MC_XmlMut\nGNAttr == <<%s>>\nGObjElems == {%s}\n====\n" % (", ".join(map(str, attrs)), ", ".join(objs)), n)
+    texts = [str(i + 1) for i, e in enumerate(doc.elems) if e["name"] in ("indexes", "u64values", "userdata")]
+    return ("---- MODULE MC_XmlMut_gen ----\nEXTENDS MC_XmlMut\nGNAttr == <<%s>>\nGObjElems == {%s}\nGTextElems == {%s}\n====\n"
+            % (", ".join(map(str, attrs)), ", ".join(objs), ", ".join(texts)), n)
 
 
 def mc_cfg(n, maxmut, simlen, sim):
-    return ("SPECIFICATION %s\nCONSTANTS\n  NElem = %d\n  NAttr <- GNAttr\n  ObjElems <- GObjElems\n  NVals = %d\n  NVers = %d\n  NDoctypes = %d\n  NTemplates = %d\n  MaxMut = %d\n  SimLen = %d\nINVARIANTS RecipeOK %s\nCHECK_DEADLOCK FALSE\n"
-            % ("SpecSim" if sim else "Spec", n, len(VALS), len(VERS), len(DOCTYPES), len(TEMPLATES), maxmut, simlen, "EmitSim" if sim else "EmitState"))
+    return ("SPECIFICATION %s\nCONSTANTS\n  NElem = %d\n  NAttr <- GNAttr\n  ObjElems <- GObjElems\n  NVals = %d\n  NVers = %d\n  NDoctypes = %d\n  NTemplates = %d\n  NContents = %d\n  TextElems <- GTextElems\n  MaxMut = %d\n  SimLen = %d\nINVARIANTS RecipeOK %s\nCHECK_DEADLOCK FALSE\n"
+            % ("SpecSim" if sim else "Spec", n, len(VALS), len(VERS), len(DOCTYPES), len(TEMPLATES), len(CONTENTS), maxmut, simlen, "EmitSim" if sim else "EmitState"))
 
 
 def by_kind(recipes, keep, rng):
@@ -301,7 +327,7 @@ def run(ctx, replay=None):
         out, st = ctx.tlc_mc("MC_XmlMut_gen", mc_cfg(n, 3, 2 + (ctx.seed % 2), True), tag="mutsim_" + name, workers=4,
                              extra_modules=[("MC_XmlMut_gen.tla", gen)], simulate="num=%d" % (2000 if thorough else 250), depth=5, timeout=900)
         multi = list(vlib.tlc_printed(out, "SIM"))
-        main = name in ("v3", "io3", "diff")           # quick: the other documents (v2 formats, the padded one) get the always-taken recipes and a smaller sample
+        main = name in ("v3", "io3", "diff", "hugegp")           # quick: the other documents (v2 formats, the padded one) get the always-taken recipes and a smaller sample
         keep1 = len(singles) if (thorough and not big) else min(len(singles), 2500 if thorough else (200 if main else 60))
         keepm = min(len(multi), 4000 if thorough else (100 if main else 30))
         if keep1 == len(singles):
@@ -316,7 +342,7 @@ def run(ctx, replay=None):
                     root = i + 1
             firsts = set(first.values())
             prio = [r for r in singles if (r[0][0] in ("cutat", "dupelem", "dropelem") and r[0][1] in firsts) or (r[0][0] == "retype" and r[0][1] == root and (thorough or (main and r[0][2] % 3 == ctx.seed % 3)))
-                    or r[0][0] in ("doctype", "setversion", "truncate")]
+                    or r[0][0] in ("doctype", "setversion", "truncate") or (r[0][0] == "setcontent" and r[0][1] in firsts)]
             rest = [r for r in singles if r not in prio] if len(singles) < 20000 else singles
             picks1 = prio + by_kind(rest, keep1, rng)
         picks = picks1 + (multi if keepm == len(multi) else rng.sample(multi, keepm))
